@@ -131,6 +131,38 @@ CLAIMED = {
              "cleaner-consistent logs.",
         technique="Lean 4 proof (closed-form invariant + log semantics) + T-diff on real PartitionRecords/FetchResult over encoded logs",
     ),
+    "C03": dict(
+        text="Machine-checked Lean 4 proofs about an executable model of PartitionRecords._unpack_records, FetchResult and "
+             "the position/seek/pause machine: exactly-once in-order delivery of the visible records from the start "
+             "position for every well-formed log shape and every cut of the log into fetch answers (c03_unpack, "
+             "c03_iterate), and in every reachable state of the partition machine under any interleaving of late answers, "
+             "getone/getall, seek, pause and lookups (c03_delivered_exactly); the position bounds (c03_position_inv); "
+             "seek taking effect for the very next record (c03_seek_next); silence while paused, unassigned or filtered "
+             "out. Tied to the code on every run by three differential / trace layers on the real classes (unpack over "
+             "encoded v0/v1/v2 logs with every cut; Fetcher+SubscriptionState scripts; the real consumer on the simulator "
+             "with probe snapshots); the property checker holdsC03 is evaluated on every simulator trace. 'Continues to "
+             "the end once faults cease' is c03_progress_partial: model-side progress plus a bounded virtual-time run.",
+        design="3/C03",
+        note="trusted: Lean kernel; the harness encoders, probe and driver glue; the simulator's Fetch semantics; record "
+             "decoders (C09/C10), one wire format per response; aborted-batch skipping (C08); RecordTooLarge answers "
+             "excluded from the honesty assumption.",
+        technique="Lean 4 invariant proofs + 3-layer T-diff/T-trace with probe snapshots",
+    ),
+    "C13": dict(
+        text="Machine-checked proofs about the per-partition automaton awaitingCommitted | awaitingReset | valid | error "
+             "modelling Fetcher._update_fetch_positions, the out-of-range handling, seek_to and request_offset_reset: "
+             "every start position is the committed offset, else the broker's answer for the policy, else an error for "
+             "policy none (c13_start*); a seek always wins over any in-flight lookup or reset (c13_seek_precedence); "
+             "seek_to_beginning/seek_to_end win on the repaired code (c13_seek_to_precedence, with a kernel-checked "
+             "counterexample for the code before the fix). Tied by trace validation with state snapshots: exhaustive "
+             "event insertion on the real Fetcher (rig), and the real consumer on the simulator across 35 "
+             "configurations (committed absent/inside/below/beyond/zero x policy x isolation x group/group-less), "
+             "ListOffsets v0-v3, lookup faults, and a seek at every event index.",
+        design="3/C13",
+        note="trusted: Lean kernel; probe and driver glue; simulator semantics of OffsetFetch / ListOffsets / out-of-range; "
+             "the coordinator's delivery of the committed offset is covered by traces only.",
+        technique="Lean 4 automaton invariants + exhaustive-interleaving trace validation",
+    ),
 }
 
 NOT_YET = {}
